@@ -19,6 +19,11 @@
 (*               scope : the unit the symbols of this section point to]    *)
 (*   bodies[r] = [stmts : statement tokens, scope]                         *)
 (*   mems[r]   = sequence of [n : member name, parent : unit]              *)
+(*   nest[r]   = nested scope nodes of the unit (id "td": a derived type   *)
+(*               definition in the spec, "as": an ASSOCIATE block in the   *)
+(*               body): [types : nested name -> type, parent : the unit    *)
+(*               whose table the nested table is chained to, scope : the   *)
+(*               unit whose scope chain owns the nested symbols]           *)
 (*   par       = image of the ORIGINAL's parent scope: reg[name] = which   *)
 (*               copy the parent's symbol-table entry of that name refers  *)
 (*               to                                                        *)
@@ -35,7 +40,8 @@
 EXTENDS Naturals, Sequences, FiniteSets, TLC
 
 CONSTANTS MutShareBody, MutShareSpec, MutShareTab, MutShareMembers,
-          MutNoRescope, MutStaleProcs, MutRegisterInParent
+          MutNoRescope, MutStaleProcs, MutRegisterInParent,
+          MutShareNest     \* the clone's nested scopes (TypeDef, ASSOCIATE) alias the symbol tables of the original's
 
 Copies   == {"o", "c"}
 Other(k) == IF k = "o" THEN "c" ELSE "o"
@@ -48,6 +54,8 @@ NameToks == {"n0", "n1", "n2"}      \* n0 = original name
 MemToks  == {"m1", "m2", "m3"}      \* m3 can be added
 BodyToks == {"e1", "e2"}            \* statements inserted by body edits
 MarkToks == {"c1"}                  \* nodes inserted by spec edits
+NestIds  == {"td", "as"}            \* nested scopes: TypeDef in the spec, ASSOCIATE block in the body
+NestNames == {"n1", "n2", "xn"}     \* n1, n2: component / associate names (declared and used), xn can be declared
 
 ToSet(s) == {s[i] : i \in DOMAIN s}
 
@@ -83,7 +91,15 @@ View(st, k) ==
        \* calls to members in the body resolve through the scope of the body's symbols
        calls   |-> {LET e == st.tabs[st.unit[bd.scope].tab].procs[m]
                     IN  IF e = None THEN "deferred" ELSE IF e = u.mem /\ u.mem = k THEN "own" ELSE "other"
-                     : m \in memnames \cap {"m1"}} ]
+                     : m \in memnames \cap {"m1"}},
+       \* nested scopes: table contents, types seen at the occurrences of the nested names (they resolve through the
+       \* nested table their scope owns), chaining of the nested tables, ownership of nested symbols
+       ntab    |-> [i \in NestIds |-> st.nest[u.nest][i].types],
+       nocc    |-> [i \in NestIds |-> [n \in NestNames |->
+                      LET t == st.nest[st.unit[st.nest[u.nest][i].scope].nest][i].types[n]
+                      IN  IF n = "xn" \/ st.nest[u.nest][i].types[n] = None THEN {} ELSE {t}]],
+       nparent |-> {Tag(k, st.nest[u.nest][i].parent) : i \in NestIds},
+       nown    |-> {Tag(k, st.nest[u.nest][i].scope) : i \in NestIds} ]
 
 \* the generated code is a function of these components
 Text(w)     == <<w.name, w.decl, w.body, w.spec, w.members>>
@@ -100,7 +116,8 @@ DoClone(st, nm) ==
              tab  |-> IF MutShareTab THEN u.tab ELSE "c",
              spec |-> IF MutShareSpec THEN u.spec ELSE "c",
              body |-> IF MutShareBody THEN u.body ELSE "c",
-             mem  |-> IF MutShareMembers THEN u.mem ELSE "c"]
+             mem  |-> IF MutShareMembers THEN u.mem ELSE "c",
+             nest |-> IF MutShareNest THEN u.nest ELSE "c"]
       sc == IF MutNoRescope THEN "o" ELSE "c"
       ot == st.tabs[u.tab]
   IN [st EXCEPT !.exists["c"] = TRUE,
@@ -111,6 +128,11 @@ DoClone(st, nm) ==
                 !.specs["c"]  = [st.specs[u.spec] EXCEPT !.scope = sc],
                 !.bodies["c"] = [st.bodies[u.body] EXCEPT !.scope = sc],
                 !.mems["c"]   = [i \in DOMAIN st.mems[u.mem] |-> [n |-> st.mems[u.mem][i].n, parent |-> sc]],
+                \* nested scope nodes are rebuilt with their own tables, chained to and owned by the clone
+                \* (a carried-over table would now be chained to the clone and its symbols re-scoped into it)
+                !.nest        = IF MutShareNest
+                                THEN [@ EXCEPT ![u.nest] = [i \in NestIds |-> [@[i] EXCEPT !.parent = "c", !.scope = "c"]]]
+                                ELSE [@ EXCEPT !["c"] = [i \in NestIds |-> [st.nest[u.nest][i] EXCEPT !.parent = "c", !.scope = sc]]],
                 \* the clone keeps the original's parent as its parent scope, but cloning must not
                 \* touch that scope: its entry for the unit's name keeps referring to the original
                 !.par.reg     = IF MutRegisterInParent /\ st.parented THEN [@ EXCEPT ![cu.name] = "c"] ELSE @]
@@ -132,6 +154,8 @@ Apply(st, e) ==
     [] e.op = "editspec" -> IF e.how = "addvar"
                             THEN [st EXCEPT !.specs[u.spec].decl = @ \cup {e.a1}, !.tabs[u.tab].types[e.a1] = e.a2]
                             ELSE [st EXCEPT !.specs[u.spec].marks = Append(@, e.a1)]
+    \* re-typing a nested name / declaring a symbol in a nested scope (e.how = nested scope id): the nested table
+    [] e.op \in {"nretype", "ndeclare"} -> [st EXCEPT !.nest[u.nest][e.how].types[e.a1] = e.a2]
     [] e.op = "addmember" -> [st EXCEPT !.mems[u.mem] = Append(@, [n |-> e.a1, parent |-> e.k]),
                                         !.tabs[u.tab].procs[e.a1] = u.mem]
 
@@ -149,6 +173,8 @@ Events(st) ==
   \cup {e \in {Ev("editspec", k, "v3", t, "addvar") : k \in live, t \in Types} : "v3" \notin Declared(st, e.k)}
   \cup {Ev("editspec", k, "c1", "", "comment") : k \in live}
   \cup {e \in {Ev("addmember", k, "m3", "", "") : k \in live} : "m3" \notin MemNames(st, e.k)}
+  \cup {Ev("nretype", k, n, t, i) : k \in live, n \in {"n1", "n2"}, t \in Types, i \in NestIds}
+  \cup {Ev("ndeclare", k, "xn", t, i) : k \in live, t \in Types, i \in NestIds}
 
 (***************************************************************************)
 (* Initial state: the original alone                                       *)
@@ -158,7 +184,10 @@ InitPar(parented) == [reg |-> [n \in NameToks |-> IF parented /\ n = "n0" THEN "
 InitSt(parented) ==
   [ exists   |-> [k \in Copies |-> k = "o"],
     parented |-> parented,
-    unit     |-> [k \in Copies |-> [name |-> "n0", tab |-> "o", spec |-> "o", body |-> "o", mem |-> "o"]],
+    unit     |-> [k \in Copies |-> [name |-> "n0", tab |-> "o", spec |-> "o", body |-> "o", mem |-> "o", nest |-> "o"]],
+    nest     |-> [r \in Copies |-> [i \in NestIds |->
+                     [types |-> [n \in NestNames |-> CASE n = "n1" -> "int" [] n = "n2" -> "real" [] OTHER -> None],
+                      parent |-> "o", scope |-> "o"]]],
     tabs     |-> [r \in Copies |-> [types |-> [n \in TabNames |-> CASE n = "v1" -> "int" [] n = "v2" -> "real" [] OTHER -> None],
                                     procs |-> [m \in MemToks |-> IF m \in {"m1", "m2"} THEN "o" ELSE None]]],
     specs    |-> [r \in Copies |-> [decl |-> {"v1", "v2"}, marks |-> <<>>, scope |-> "o"]],
@@ -186,7 +215,7 @@ CloneFaithful ==
   ev.op = "clone" =>
      LET o == View(st, "o")  c == View(st, "c") IN
        /\ TextSansName(c) = TextSansName(o)
-       /\ c.tab = o.tab /\ c.occ = o.occ /\ c.mocc = o.mocc
+       /\ c.tab = o.tab /\ c.occ = o.occ /\ c.mocc = o.mocc /\ c.ntab = o.ntab /\ c.nocc = o.nocc
        /\ c.name = (IF ev.a1 = "" THEN o.name ELSE ev.a1)
 
 \* "all of its symbols resolve their types through the clone and its own scope chain"
@@ -196,6 +225,8 @@ SymbolsResolveInOwnChain ==
        /\ w.memparent \subseteq {"self"}
        /\ w.memtab \subseteq {"own"}
        /\ w.calls \subseteq {"own"}
+       /\ w.nparent \subseteq {"self"} /\ w.nown \subseteq {"self"}
+       /\ \A i \in NestIds, n \in NestNames : w.nocc[i][n] \subseteq {w.ntab[i][n]}
        /\ \A v \in Vars : w.occ[v] \subseteq {w.tab[v]}
        /\ \A v \in {"v1", "v2"} : w.mocc[v] \subseteq {w.tab[v]}
 
@@ -218,6 +249,8 @@ EffectV(w, e) ==
     [] e.op = "editspec" -> IF e.how = "addvar"
                             THEN [w EXCEPT !.decl[e.a1] = e.a2, !.tab[e.a1] = e.a2, !.occ[e.a1] = {e.a2}]
                             ELSE [w EXCEPT !.spec = Append(@, e.a1)]
+    [] e.op = "nretype"  -> [w EXCEPT !.ntab[e.how][e.a1] = e.a2, !.nocc[e.how][e.a1] = {e.a2}]
+    [] e.op = "ndeclare" -> [w EXCEPT !.ntab[e.how][e.a1] = e.a2]
     [] e.op = "addmember" -> [w EXCEPT !.members = Append(@, e.a1), !.memparent = @ \cup {"self"}, !.memtab = @ \cup {"own"},
                                        !.mocc = [v \in {"v1", "v2"} |-> @[v] \cup {w.tab[v]}]]
 EffectOnTarget ==
@@ -237,6 +270,9 @@ Diff(m, obs) ==
   ELSE IF obs.body # m.body THEN "body"
   ELSE IF obs.spec # m.spec THEN "spec"
   ELSE IF obs.members # m.members THEN "members"
+  ELSE IF \E i \in NestIds : [n \in NestNames |-> obs.ntab[i][n]] # m.ntab[i] THEN "ntab"
+  ELSE IF \E i \in NestIds, n \in NestNames : ~(ToSet(obs.nocc[i][n]) \subseteq m.nocc[i][n])
+                                              \/ (m.nocc[i][n] # {} /\ ToSet(obs.nocc[i][n]) = {}) THEN "nocc"
   ELSE "ok"
 
 \* ---- identity tags observed on one copy
@@ -246,6 +282,8 @@ OwnChain(obs, parented) ==
   ELSE IF ~(ToSet(obs.memtab) \subseteq {"own"}) THEN "memtab"
   ELSE IF ~(ToSet(obs.calls) \subseteq {"own"}) THEN "calls"
   ELSE IF ~(ToSet(obs.tdef) \subseteq {"own"}) THEN "tdef"
+  ELSE IF ~(ToSet(obs.nparent) \subseteq {"self"}) THEN "nparent"
+  ELSE IF ~(ToSet(obs.nown) \subseteq {"self"}) THEN "nown"
   ELSE "ok"
 
 TypeOK == /\ st.exists \in [Copies -> BOOLEAN]
